@@ -11,6 +11,7 @@ Tie B: (M1) the real Crazyflie + SyncCrazyflie driven single-threaded against th
 under the virtual scheduler (harness/vsched), trace acceptance by the Lean thread model.
 """
 import ast
+import struct
 
 from harness.lib import extract as X
 from harness.lib.common import ExtractError  # noqa: F401
@@ -22,7 +23,8 @@ DRIVER = 'Driver/C02.lean'
 REQUIRED_THEOREMS = ['CfVerif.C02.' + n for n in (
     'trace_wf', 'connected_only_when_tables_complete', 'fully_only_when_all_values', 'sync_open_returns',
     'fault_reaches_disconnected', 'link_error_outputs', 'fault_inside_open_link', 'sync_open_raises_on_fault_inside_open_link',
-    'reconnectable', 'handshake_completes', 'in_callback_action', 'repaired_D26', 'late_first_packet_cb_counterexample', 'aborted_fetcher_cannot_finish', 'aborted_fetcher_counterexample', 'repaired_D1', 'repaired_D21',
+    'reconnectable', 'handshake_completes', 'in_callback_action', 'repaired_D28', 'early_fully_connected_counterexample', 'repaired_D29', 'ext_type_confusion_counterexample',
+    'completion_test_walks_the_table', 'param_updated_stores', 'repaired_D26', 'late_first_packet_cb_counterexample', 'aborted_fetcher_cannot_finish', 'aborted_fetcher_counterexample', 'repaired_D1', 'repaired_D21',
     'sync_open_hangs_counterexample', 'stale_fetcher_counterexample',
     'M2.repaired_D2_D3_D4_D22', 'M2.no_thread_death', 'M2.no_deadlock', 'M2.disconnected_in_bounded_steps',
     'M2.send_lock_deadlock_counterexample', 'M2.ping_self_join_counterexample', 'M2.dispatcher_death_counterexample',
@@ -319,11 +321,24 @@ def extract(ctx):
             closes = _has(n, 'self._close()') and _has(X.find(ef, '_close'), 'remove_port_callback')
             ext_abort = ext_abort or closes or _has(n, 'remove_port_callback')
     g.raw('def extFetcherAbortsOnDisconnect : Bool := ' + _bool(ext_abort))
+    ef_cb = X.find(ef, '_new_packet_cb')
+    ef_first = _stmts(ef_cb)[0] if _stmts(ef_cb) else None
+    g.raw('def extCbChecksCommand : Bool := ' + _bool(isinstance(ef_first, ast.If) and 'MISC_GET_EXTENDED_TYPE' in ast.unparse(ef_first.test)))
     g.strings('extCompares', [c for c in X.compares(X.find(ef, '_new_packet_cb')) if '_count' in c or '_req_param' in c])
     P = X.find(pm, 'Param')
     g.strings('paramDisconnected', _key_events(X.find(P, '_disconnected'), ['self.param_updater.close()', 'self.toc = Toc()', 'self.values = {}']))
     g.strings('paramConnectionRequested', _key_events(X.find(P, '_connection_requested'), ['self.is_updated = False', 'self.toc = Toc()', 'self.values = {}']))
-    g.strings('paramAllUpdatedCond', [ast.unparse(n.test) for n in ast.walk(X.find(P, '_param_updated')) if isinstance(n, ast.If) and 'is_updated' in ast.unparse(n.test)])
+    conds = [n.test for n in ast.walk(X.find(P, '_param_updated')) if isinstance(n, ast.If) and 'is_updated' in ast.unparse(n.test)]
+    X.expect(len(conds) == 1, 'Param._param_updated: expected exactly one completion test mentioning is_updated')
+    conj = [ast.unparse(v) for v in (conds[0].values if isinstance(conds[0], ast.BoolOp) and isinstance(conds[0].op, ast.And) else [conds[0]])]
+    # the completion test: [guard: only once connected (D28)] + the TOC walk + not yet signalled
+    g.raw('def allUpdatedRequiresConnected : Bool := ' + _bool('self.cf.is_connected()' in conj))
+    g.strings('paramAllUpdatedCond', [c for c in conj if c != 'self.cf.is_connected()'])
+    # ... and how the walk decides: every element of the TOC must have a value
+    g.strings('checkAllUpdatedBody', [ast.unparse(x) for x in _stmts(X.find(P, '_check_if_all_updated'))])
+    pu_fn = X.find(P, '_param_updated')
+    g.strings('paramUpdatedStores', [ast.unparse(x) for x in _walk_stmts(_stmts(pu_fn)) if isinstance(x, ast.Assign)
+                                     and 'self.values[' in ast.unparse(x.targets[0])])
     g.strings('paramCtorCbs', [ast.unparse(n.func)[len('self.cf.'):-len('.add_callback')] + ':' + ast.unparse(n.args[0])
                                for n in ast.walk(X.find(P, '__init__')) if isinstance(n, ast.Call) and ast.unparse(n.func).startswith('self.cf.')
                                and ast.unparse(n.func).endswith('.add_callback')])
@@ -451,6 +466,7 @@ class M1Real:
         self.blocked = None
         self.blocking_rec = None
         self.snapshots = []      # table sizes at every connected / fully_connected
+        self.ext_pending_at_connected = []
         # observe the public Callers (after the library's own callbacks, before the wrapper's)
         names = {'connection_requested': 'connection_requested', 'connection_failed': 'connection_failed',
                  'link_established': 'link_established', 'connected': 'connected', 'fully_connected': 'fully_connected',
@@ -463,6 +479,8 @@ class M1Real:
         # the fetchers registered during the connection.  They perform the pending in-callback action of a `dact` op.
         self.pending = None
         self.strict_usage = True
+        self.cf.param.all_updated.add_callback(lambda: self._out('all_updated'))
+        self.dev = dev
         self.cf.packet_received.add_callback(lambda pk: self._user_cb('a'))
         for port in (15, 13, 5, 4, 2):
             self.cf.add_port_callback(port, lambda pk: self._user_cb('p'))
@@ -477,11 +495,21 @@ class M1Real:
     def _out(self, name):
         if name == 'connection_requested':
             self.stale_log_toc = self.cf.log.toc       # the table of the previous connection, if any
-        if name in ('connected', 'fully_connected'):
+        if name in ('connected', 'fully_connected', 'all_updated'):
             cf = self.cf
             toc = cf.log.toc
+            missing = sorted('%s.%s' % (g, n) for g in cf.param.toc.toc for n in cf.param.toc.toc[g]
+                             if n not in cf.param.values.get(g, {}))
             self.snapshots.append((name, 0 if toc is None else sum(len(g) for g in toc.toc.values()),
-                                   sum(len(g) for g in cf.param.toc.toc.values()), sum(len(g) for g in cf.param.values.values())))
+                                   sum(len(g) for g in cf.param.toc.toc.values()), sum(len(g) for g in cf.param.values.values()),
+                                   missing, cf.is_connected()))
+        if name == 'connected':
+            # extended-type requests the device has answered so far in this link vs the extended parameters
+            link = self.link
+            answered = {struct.unpack('<H', d[1:3])[0] for (p_, c_, d) in (link.delivered if link else []) if p_ == 2 and c_ == 3 and d[:1] == b'\x02'}
+            self.ext_pending_at_connected = [i for i, b in enumerate(self.dev[3]) if b and i not in answered]
+        if name == 'all_updated':
+            return
         self.cur.append(name)
 
     def _user_cb(self, pos):
@@ -547,6 +575,14 @@ class M1Real:
             return self._link_up() and not self._dead()
         if op[0] == 'close':
             return w != 'close'
+        if op[0] == 'inj':
+            if not self.dev[0]:
+                return False          # value-updated notifications / 16-bit read replies exist only in the current protocol
+            if op[1] == 'dup':
+                pat = self.cf.param.param_updater._lock_pattern
+                if pat is not None and bytes(pat) == struct.pack('<H', op[2]):
+                    return False      # that IS the outstanding reply, not a duplicate (see `allowed` in Model/C02.lean)
+            return True
         if op[0] == 'dact' and op[1] == 'a' and self.strict_usage:
             # outside the model (see `allowed` in Model/C02.lean): all-packet position while the log reset ack is dispatched
             link = self.link
@@ -603,6 +639,22 @@ class M1Real:
                     finally:
                         link.budget = None
             self.pending = None
+        elif k == 'inj':
+            # an extra packet from the device: unsolicited MISC_VALUE_UPDATED, or a duplicated / late read reply
+            link = self.link
+            if link is not None and cf.link is link and not link.closed and not link.failed:
+                fmt = ['<B', '<H', '<f', '<i'][op[2] % 4]
+                val = struct.pack(fmt, 7)
+                pkt = (2, 3, b'\x01' + struct.pack('<H', op[2]) + val) if op[1] == 'upd' else (2, 1, struct.pack('<H', op[2]) + b'\x00' + val)
+                link.ready.appendleft(pkt)
+                with sess._active():
+                    link.budget = 1
+                    try:
+                        cf.incoming.run()
+                    except self.sim.PumpStop:
+                        pass
+                    finally:
+                        link.budget = None
         elif k == 'work':
             for w in sess.workers:
                 if sess._worker_ready(w):
@@ -667,7 +719,9 @@ class M1Real:
 def op_line(op):
     """driver argument of open / sopen: 0 no driver, 2 driver raises (both = `missing` in the model), 1 ok,
     3 the link fails during connect()"""
-    return ' '.join(str(x if x in (0, 1, 3) or not isinstance(x, int) else 0) for x in op)
+    if op[0] in ('open', 'sopen'):
+        return '%s %d' % (op[0], op[1] if op[1] in (0, 1, 3) else 0)
+    return ' '.join(str(x) for x in op)
 
 
 # ---- Python twin of Spec/C02.lean (WF automaton); cross-checked against the Lean one on every trace --------
@@ -831,6 +885,19 @@ def gen_m1_cases(ctx):
                             # then runs after the application's all-packet callback)
                             cases.append(('in-callback-2nd', dev, [(opener, 1)] + pump(1 + k % 4) + [('close',), (opener, 1)] + pump(k) +
                                           [('dact', pos, act)] + pump(2) + [(opener, 1)] + pump(n) + [('close',)]))
+    # (2c) extra packets from the device / network at EVERY point of the handshake: an unsolicited value-updated
+    #      notification or a duplicated / late read reply, for every parameter id (and one beyond the table)
+    for dev in (devs if thorough else devs[:1] + devs[3:4]):
+        if not dev[0]:
+            continue
+        n = handshake_len(dev)
+        for k in range(0, n + 1):
+            for what in ('upd', 'dup'):
+                for pid in range(len(dev[3]) + 1):
+                    if not thorough and what == 'dup' and (k + pid) % 2:
+                        continue
+                    cases.append(('extra-packet', dev, [('open', 1)] + pump(k) + [('inj', what, pid)] + pump(n) +
+                                  [('inj', 'upd', pid), ('close',), ('sopen', 1)] + pump(max(0, k - 2)) + [('inj', what, pid)] + pump(n) + [('sclose',)]))
     # (2b) fault INSIDE open_link (the error callback runs while get_link_driver()/connect() has not returned), plain and
     #      blocking, followed by: retry at once / retry after close / a stale error report / a second in-connect failure
     for dev in devs[:3]:
@@ -846,7 +913,7 @@ def gen_m1_cases(ctx):
             for bad in (0, 2):
                 cases.append(('no-driver', dev, [(opener, bad), (opener, 1)] + pump(handshake_len(dev)) + [('sclose',), ('close',)]))
     # (4) random connect / disconnect histories
-    weights = [('deliver', 30), ('work', 12), ('err', 3), ('arm', 3), ('close', 4), ('open', 6), ('sopen', 6), ('sclose', 3), ('dact', 4)]
+    weights = [('deliver', 30), ('work', 12), ('err', 3), ('arm', 3), ('close', 4), ('open', 6), ('sopen', 6), ('sclose', 3), ('dact', 4), ('inj', 8)]
     bag = [k for k, w in weights for _ in range(w)]
     for _ in range(1500 if thorough else 250):
         dev = (rng.random() < 0.8, rng.choice([0, 1, 2, 4]), rng.choice([0, 1, 3]), tuple(rng.random() < 0.4 for _ in range(rng.choice([0, 1, 2, 3, 5]))))
@@ -855,6 +922,9 @@ def gen_m1_cases(ctx):
             k = rng.choice(bag)
             if k == 'dact':
                 script.append(('dact', rng.choice('ap'), rng.choice(['close', 'err'])))
+                continue
+            if k == 'inj':
+                script.append(('inj', rng.choice(['upd', 'upd', 'dup']), rng.randrange(len(dev[3]) + 1)))
                 continue
             script.append((k, 1 if rng.random() < 0.8 else rng.choice([0, 2, 3, 3])) if k in ('open', 'sopen') else (k,))
         cases.append(('history', dev, script))
@@ -975,6 +1045,13 @@ def search(ctx):
                     if k < 4:
                         scripts.append((dv, [('open', 1), ('deliver',), ('close',), ('open', 1)] + pump(k) + [('dact', pos, act)] + pump(2) +
                                         [('open', 1)] + pump(handshake_len(dv)) + [('close',)], ('open', k + 2, 'in-callback-2nd-%s-%s' % (pos, act))))
+    for dv in (dev, (True, 1, 0, (False, False, False)), (True, 0, 1, (True, True))):
+        m = handshake_len(dv)
+        for k in range(0, m + 1):
+            for what in ('upd', 'dup'):
+                for pid in range(len(dv[3]) + 1):
+                    scripts.append((dv, [('open', 1)] + pump(k) + [('inj', what, pid)] + pump(m) + [('inj', what, pid), ('close',)],
+                                    ('open', k, 'extra-packet-%s' % what)))
     for opener in ('open', 'sopen'):
         for tail in ([], [('close',)], [(opener, 3)]):
             scripts.append((dev, [(opener, 3)] + tail + [(opener, 1)] + pump(n) + [('close',)], (opener, 0, 'inside-open-link')))
@@ -984,7 +1061,19 @@ def search(ctx):
         verdict, why, i = wf_check(executed, out[:-1])
         waiting = out[-1].split('waiting=')[1]
         opener, k, fault = tag
-        for (ev, nlog, npar, nval) in r.snapshots:
+        for (ev, nlog, npar, nval, missing, isconn) in r.snapshots:
+            if ev in ('fully_connected', 'all_updated') and (missing or npar != len(d[3]) or not isconn):
+                ctx.witness('fully-connected-with-missing-values',
+                            '%s delivered while %s (param TOC %d/%d entries, connected=%s)' % (
+                                ev, ('no value for ' + ','.join(missing[:4])) if missing else 'the parameter TOC is incomplete', npar, len(d[3]), isconn),
+                            {'dev': dev_line(d), 'ops': [op_line(o) for o in executed]}, fault_position=k, fault=fault)
+                continue
+            if ev == 'all_updated':
+                continue
+            if ev == 'connected' and fault.startswith('extra-packet') and r.ext_pending_at_connected:
+                ctx.witness('connected-before-extended-types',
+                            'connected delivered while the extended type of parameter(s) %s had not been received' % r.ext_pending_at_connected,
+                            {'dev': dev_line(d), 'ops': [op_line(o) for o in executed]}, fault_position=k, fault=fault)
             if (nlog, npar) != (d[1], len(d[3])) or (ev == 'fully_connected' and nval != len(d[3])):
                 ctx.witness(('callback-after-end-of-attempt-' + fault) if fault.startswith('in-callback') else
                             'D21-stale-fetcher-after-aborted-attempt' if k > 0 else 'tables-incomplete-at-connected',
@@ -1000,6 +1089,8 @@ def search(ctx):
             key = 'D21-stale-fetcher-after-aborted-attempt' if i > 2 * k + 2 and stale else 'trace-not-well-formed'
             if fault in ('inside-open-link', 'before-first-packet') and i <= 2:
                 key = 'trace-not-well-formed-fault-' + fault
+            if fault.startswith('extra-packet'):
+                key = 'fully-connected-with-missing-values' if 'fully_connected' in str(why) else 'trace-not-well-formed-' + fault
             if fault.startswith('in-callback') and i <= 2 * k + 4:
                 key = 'callback-after-end-of-attempt-' + fault
                 if 'link_established' in str(why):
